@@ -16,6 +16,6 @@ Extraction "Model.ml"
   (* chain *) cstate_empty add_block make_block add_block_raw blocks_page first_block_ts last_block_ts
               last_block_txs verify_block verify replay
   (* sync *) update candidates survivors select age_of
-  (* pool *) node_empty admit validate pool_ids
+  (* pool *) node_empty pool_add validate pool_ids
   (* wire *) render marshal_block marshal_tx marshal_utxo marshal_request marshal_input_info
              gen_id_sha block_hash_sha input_msg sha256 hex_of_bytes bytes_of_string.
